@@ -14,6 +14,8 @@ git checkout -q -- src
 cp -f "$S/demo.rs" tests/seeded_demo.rs
 # a demo may name the feature set it has to be run under (changes that only exist in a non-default build)
 DEMO_FLAGS=$(grep -m1 -o -- '--no-default-features --features [a-z,]*' "$S/demo.rs" || true)
+# DEMO_FLAGS_OVERRIDE (may be empty = default features) wins over what the demo's comments mention first
+if [ -n "${DEMO_FLAGS_OVERRIDE+x}" ]; then DEMO_FLAGS=$DEMO_FLAGS_OVERRIDE; fi
 [ -n "$DEMO_FLAGS" ] && echo "demo runs with: $DEMO_FLAGS"
 cargo test --offline $DEMO_FLAGS --test seeded_demo >/tmp/confirm_$NAME.clean 2>&1; clean_rc=$?
 echo "== demo on clean source: rc=$clean_rc $(grep -E '^test result' /tmp/confirm_$NAME.clean | head -1)"
